@@ -154,7 +154,7 @@ func (w *walker) resp(mode int) *sim.Resp {
 }
 
 func (w *walker) val(forceSome bool) *int64 {
-	if !forceSome && w.r.Intn(7) == 0 {
+	if !forceSome && w.r.Intn(5) == 0 {
 		return nil
 	}
 	return p64(int64(w.r.Intn(17)))
@@ -208,7 +208,7 @@ func (w *walker) step() {
 			if len(open) > 0 && r.Intn(5) > 0 {
 				k = open[r.Intn(len(open))]
 			}
-			add(9, sim.Action{Op: "begin", C: "trial", Key: k, DbErr: r.Intn(30) == 0})
+			add(12, sim.Action{Op: "begin", C: "trial", Key: k, DbErr: r.Intn(30) == 0})
 		}
 	}
 	inDB := map[int]bool{}
@@ -231,10 +231,10 @@ func (w *walker) step() {
 	}
 	for _, j := range p.Jobs {
 		if j.Phase == "active" {
-			add(3, sim.Action{Op: "jobdone", Key: j.Name, Ok: r.Intn(5) > 0})
+			add(4, sim.Action{Op: "jobdone", Key: j.Name, Ok: r.Intn(5) > 0})
 		}
 		if !inDB[j.Name] {
-			add(3, sim.Action{Op: "metrics", Key: j.Name, V: w.val(isES(trialByName[j.Name]))})
+			add(4, sim.Action{Op: "metrics", Key: j.Name, V: w.val(isES(trialByName[j.Name]))})
 		}
 	}
 	if s.Cfg.ES {
@@ -302,10 +302,10 @@ func (w *walker) drain() *int {
 		w.finish(c)
 	}
 	rounds := 250
-	if s.Cfg.Max == nil {
-		rounds = 4 // without maxTrialCount the experiment may run for ever
-	}
 	for round := 0; round < rounds; round++ {
+		if s.Cfg.Max == nil && len(s.Project().Trials) >= 9 && !expCompleted(s.Project()) {
+			return nil // without maxTrialCount (and goal not reached) the experiment may run for ever
+		}
 		start := len(w.acts)
 		before := s.Project()
 		// environment completes
@@ -323,7 +323,17 @@ func (w *walker) drain() *int {
 		}
 		for _, t := range p.Trials {
 			if !inDB[t.Name] {
-				w.do(sim.Action{Op: "metrics", Key: t.Name, V: p64(int64(w.r.Intn(9)))})
+				v := p64(int64(w.r.Intn(17)))
+				isEs := false
+				for _, c := range t.Conds {
+					if c.T == 6 && c.S == "True" {
+						isEs = true
+					}
+				}
+				if !isEs && w.r.Intn(6) == 0 {
+					v = nil
+				}
+				w.do(sim.Action{Op: "metrics", Key: t.Name, V: v})
 				envActed = true
 			}
 		}
@@ -350,6 +360,18 @@ func (w *walker) drain() *int {
 		}
 	}
 	return nil
+}
+
+func expCompleted(p sim.Proj) bool {
+	if p.Exp == nil {
+		return false
+	}
+	for _, c := range p.Exp.Conds {
+		if (c.T == 3 || c.T == 4) && c.S == "True" {
+			return true
+		}
+	}
+	return false
 }
 
 func sameStore(a, b sim.Proj) bool {
@@ -388,7 +410,7 @@ func (wd world) Gen(r *rand.Rand, i, n int) any {
 	cfg := genCfg(r)
 	s := sim.New(cfg)
 	w := &walker{r: r, s: s}
-	steps := 40 + r.Intn(90)
+	steps := 70 + r.Intn(130)
 	if wd.long {
 		steps = 100 + r.Intn(700)
 	}
